@@ -227,6 +227,20 @@ theorem pseudo_escape_witness_round_trips :
       = some (0, 0, 1, kfTokens.flatMap (·.val)) := by
   decide
 
+/-! ## known finding (machine-checked at the witness): `a b\ ` does not survive a round trip
+
+`kfSpace₁` are the tokens of `a b\ ` (the name of the second type selector ends with an escaped space), `kfSpace₂`
+the tokens of its serialisation `ab\ ` (their values concatenate to it): `Out.append` removes the white space of
+the descendant combinator because the next value ends with a space. -/
+def kfSpace₁ : List Tok := [⟨.ident, [97]⟩, ⟨.s, [32]⟩, ⟨.ident, [98, 92, 32]⟩]
+def kfSpace₂ : List Tok := [⟨.ident, [97, 98, 92, 32]⟩]
+
+theorem known_escaped_space_eats_descendant :
+    (parseSel [] kfSpace₁).toOption.join.map (fun r => (r.b, r.c, r.d, r.text)) = some (0, 0, 2, [97, 98, 92, 32]) ∧
+    kfSpace₂.flatMap (·.val) = [97, 98, 92, 32] ∧
+    (parseSel [] kfSpace₂).toOption.join.map (fun r => (r.b, r.c, r.d)) = some (0, 0, 1) := by
+  decide
+
 /-! ## non-vacuity: the hypotheses are satisfiable (a rich written selector is `ok`), and a test by evaluation -/
 
 /-- `*|div#i/*x*/.c[ p|href ~='a']:HoVer:N\OT( [|x]):not(nth-child(2n)):BeFore > p|*:nth-child( 2n + 1 ) ::x(a) /*t*/ ` -/
